@@ -250,7 +250,7 @@ func versionsReaching(e *Env, fn *ssa.Function, pb *ssa.BasicBlock) []string {
 	all := true
 	for _, v := range sxgVersions {
 		ctx := gate.New(e.P, e.P.VTA(), sxgVersion(v).assume...)
-		_, w := ctx.EstablishedFrom(fn, fn.Blocks[0], gate.Outcome{Kind: gate.NonNil, Idx: 1 << 20}, gate.Never, map[*ssa.BasicBlock]bool{pb: true})
+		_, w := ctx.EstablishedFrom(fn, fn.Blocks[0], gate.Outcome{Kind: gate.NoExit}, gate.Never, map[*ssa.BasicBlock]bool{pb: true})
 		r := false
 		for _, l := range w {
 			if strings.HasPrefix(l, "reaches block") {
@@ -289,7 +289,7 @@ func callersReachableUnder(e *Env, fn *ssa.Function, v string, scope map[*ssa.Fu
 			continue
 		}
 		ctx := gate.New(e.P, e.P.VTA(), sxgVersion(v).assume...)
-		_, w := ctx.EstablishedFrom(caller, caller.Blocks[0], gate.Outcome{Kind: gate.NonNil, Idx: 1 << 20}, gate.Never, stop)
+		_, w := ctx.EstablishedFrom(caller, caller.Blocks[0], gate.Outcome{Kind: gate.NoExit}, gate.Never, stop)
 		for _, l := range w {
 			if strings.HasPrefix(l, "reaches block") {
 				return "under version " + v + " the call in " + load.FuncName(caller) + " is reachable"
